@@ -304,6 +304,27 @@ SwapMuts(b, n) ==
 
 NodeMuts(b, N, n) == TruncMuts(b, N, n) \o LenMuts(b, n) \o DupDropMuts(b, N, n) \o OddMuts(b, N, n) \o SwapMuts(b, n)
 
+\* C07: every pair (record-layer version, legacy_version) of a ClientHello record, with the supported_versions
+\* extension kept and dropped (FromRaw maps the two to TLSVersMin / TLSVersMax when the extension is absent)
+VersionValues == <<768, 769, 770, 771, 772, 773>>
+VersionMuts(b, N) ==
+  LET rv == SelectSeq(N, LAMBDA n : n.p = "rec/legacy_record_version")
+      lv == SelectSeq(N, LAMBDA n : n.p = "hs/legacy_version")
+      sv == SelectSeq(N, LAMBDA n : n.tk = "ext" /\ RdU16(b, n.tp) = 43) IN
+  IF rv = <<>> \/ lv = <<>> THEN <<>> ELSE
+  LET R == rv[1]  L == lv[1]
+      set(a, c) == << Sp(R.tp - 1, 2, U16(a)) >>
+      leg(c) == << Sp(L.tp - 1, 2, U16(c)) >>
+      adj == IF sv = <<>> THEN <<>> ELSE Adj(b, Anc(N, sv[1]), 0 - Size(sv[1]))
+      lo == SelectSeq(adj, LAMBDA s : s.off < L.tp - 1)
+      hi == SelectSeq(adj, LAMBDA s : s.off > L.tp - 1)
+      keep(a, c) == Mu("versions:" \o ToString(a) \o "/" \o ToString(c), "versions", set(a, c) \o leg(c))
+      drop(a, c) == Mu("versions-nosv:" \o ToString(a) \o "/" \o ToString(c), "versions",
+                       set(a, c) \o lo \o leg(c) \o hi \o << Sp(sv[1].s - 1, Size(sv[1]), <<>>) >>)
+      pairs == [i \in 1..36 |-> << VersionValues[((i - 1) \div 6) + 1], VersionValues[((i - 1) % 6) + 1] >>]
+  IN [i \in 1..36 |-> keep(pairs[i][1], pairs[i][2])]
+     \o (IF sv = <<>> THEN <<>> ELSE [i \in 1..36 |-> drop(pairs[i][1], pairs[i][2])])
+
 \* a declared length is enlarged: the class that must not drive allocation (D16)
 GrowsDeclaredLength(m) == m.op \in {"len+1", "lenmax"}
 DeclaresHuge(m) == m.op \in {"insert-before:compressed_certificate_huge", "insert-after:compressed_certificate_huge"}
